@@ -326,12 +326,16 @@ dround_ddur(struct dt_d_s d, struct dt_ddur_s dur, bool nextp)
 
 		switch (d.typ) {
 			unsigned int mdays;
+			unsigned int here;
 		case DT_YMD:
-			if ((forw && d.ymd.d < tgt) ||
-			    (!forw && d.ymd.d > tgt)) {
+			/* the target as it exists in the month at hand */
+			mdays = __get_mdays(d.ymd.y, d.ymd.m);
+			here = tgt < mdays ? tgt : mdays;
+			if ((forw && d.ymd.d < here) ||
+			    (!forw && d.ymd.d > here)) {
 				/* no month or year adjustment */
 				;
-			} else if (d.ymd.d == tgt && !nextp) {
+			} else if (d.ymd.d == here && !nextp) {
 				/* we're ON the date already and no
 				 * next/prev date is requested */
 				;
@@ -376,12 +380,16 @@ dround_ddur(struct dt_d_s d, struct dt_ddur_s dur, bool nextp)
 
 		switch (d.typ) {
 			unsigned int bdays;
+			unsigned int here;
 		case DT_BIZDA:
-			if ((forw && d.bizda.bd < tgt) ||
-			    (!forw && d.bizda.bd > tgt)) {
+			/* the target as it exists in the month at hand */
+			bdays = __get_bdays(d.bizda.y, d.bizda.m);
+			here = tgt < bdays ? tgt : bdays;
+			if ((forw && d.bizda.bd < here) ||
+			    (!forw && d.bizda.bd > here)) {
 				/* no month or year adjustment */
 				;
-			} else if (d.bizda.bd == tgt && !nextp) {
+			} else if (d.bizda.bd == here && !nextp) {
 				/* we're ON the date already and no
 				 * next/prev date is requested */
 				;
@@ -501,12 +509,16 @@ Warning: rounding to n-th business day not supported for input value");
 
 		switch (d.typ) {
 			unsigned int nw;
+			unsigned int here;
 		case DT_YWD:
-			if ((forw && d.ywd.c < tgt) ||
-			    (!forw && d.ywd.c > tgt)) {
+			/* the target as it exists in the year at hand */
+			nw = __get_isowk(d.ywd.y);
+			here = tgt < nw ? tgt : nw;
+			if ((forw && d.ywd.c < here) ||
+			    (!forw && d.ywd.c > here)) {
 				/* no year adjustment */
 				;
-			} else if (d.ywd.c == tgt && !nextp) {
+			} else if (d.ywd.c == here && !nextp) {
 				/* we're IN the week already and no
 				 * next/prev date is requested */
 				;
